@@ -49,7 +49,7 @@ def gen_layout(rng):
     top = "%s.%s" % (names[-1], ext_of[names[-1]])
     inputs = [top]
     kind = rng.pick(["plain", "plain", "parent_str", "parent_list", "parent_wild", "parent_false", "parent_null", "parent_bad", "symlink",
-                     "missing", "cycle", "multi", "virtual", "parent_second_doc"])
+                     "missing", "cycle", "multi", "virtual", "parent_second_doc", "link_graph"])
     extra_base = {"x.%s" % rng.pick(EXTS): ("reg", [{"xbase": 1, "shared": "x"}]),
                   "y.%s" % rng.pick(EXTS): ("reg", [{"ybase": 2, "shared": "y"}])}
     topdocs = files[top][1]
@@ -87,6 +87,19 @@ def gen_layout(rng):
         if rng.chance(1, 3):
             files["l2.x.y.%s" % ext_of[names[-1]]] = ("link", inputs[0])
             inputs = ["l2.x.y.%s" % ext_of[names[-1]]]
+    elif kind == "link_graph":
+        # a small directory in which any name may be a regular layer or a link to any other name (also to itself,
+        # to its own child layer, to nothing): parents by filename run through the links, cycles included
+        files = {}
+        pool = rng.shuffle(["a", "a.x", "a.x.y", "b", "b.x", "a.y", "b.x.z"])[: 2 + rng.below(4)]
+        e1 = rng.pick(EXTS)      # one extension: a link is read in the format of its own name, the model sees decoded contents
+        full = {n: "%s.%s" % (n, e1) for n in pool}
+        for n in pool:
+            if rng.chance(1, 2):
+                files[full[n]] = ("reg", [{n.replace(".", "_"): 1, "shared": n}])
+            else:
+                files[full[n]] = ("link", rng.pick([full[m] for m in pool] + ["nothere." + e1]))
+        inputs = [full[rng.pick(pool)]]
     elif kind == "missing" and depth >= 3:
         mid = names[1 + rng.below(depth - 2)]
         del files["%s.%s" % (mid, ext_of[mid])]
@@ -102,6 +115,26 @@ def gen_layout(rng):
         inputs = ["%s.%s" % (names[-1], rng.pick(EXTS + ["json-pretty", "txt"]))]
     opts = {"inputs": inputs, "P": rng.chance(1, 5), "f": rng.pick(["json", "json", None, "yaml", "toml", "json-pretty"]), "o": None}
     return {"files": files, "opts": opts, "kind": kind}
+
+
+def link_corpus():
+    """fixed layouts in which parents by filename run through symbolic links: cycles must end in an error, the rest load"""
+    def lay(files, inp):
+        return {"files": files, "opts": {"inputs": [inp], "P": False, "f": "json", "o": None}, "kind": "link_corpus"}
+    reg = lambda k: ("reg", [{k: 1}])
+    return [
+        lay({"a.x.yaml": reg("ax"), "a.yaml": ("link", "a.x.yaml")}, "a.x.yaml"),                      # the base is a link to its own child
+        lay({"a.x.yaml": reg("ax"), "a.yaml": ("link", "a.x.yaml")}, "a.yaml"),
+        lay({"a.x.yaml": reg("ax"), "a.yaml": ("link", "b.x.yaml"), "b.x.yaml": ("link", "a.x.yaml")}, "a.x.yaml"),
+        lay({"a.yaml": ("link", "a.yaml")}, "a.yaml"),                                                  # a link to itself
+        lay({"a.yaml": ("link", "b.yaml"), "b.yaml": ("link", "a.yaml")}, "a.yaml"),
+        lay({"a.x.y.yaml": reg("axy"), "a.x.yaml": ("link", "a.x.y.yaml"), "a.yaml": reg("a")}, "a.x.y.yaml"),
+        lay({"a.x.yaml": reg("ax"), "b.yaml": reg("b"), "a.yaml": ("link", "b.yaml")}, "a.x.yaml"),     # no cycle: a is b
+        lay({"a.x.yaml": reg("ax"), "b.q.yaml": reg("bq"), "b.yaml": reg("b"), "a.yaml": ("link", "b.q.yaml")}, "a.x.yaml"),  # the link's parents come from its target's name
+        lay({"a.x.json": reg("ax"), "a.json": ("link", "a.x.json")}, "a.x.json"),
+        lay({"p.yaml": ("reg", [{"$parent": "l", "p": 1}]), "l.yaml": ("link", "p.yaml")}, "p.yaml"),  # $parent names a link back to the file
+        lay({"p.yaml": ("reg", [{"$parent": "l", "p": 1}]), "l.yaml": ("link", "p.yaml")}, "l.yaml"),
+    ]
 
 
 def toml_safe(docs):
@@ -189,6 +222,8 @@ def parse_out(fmt, out):
 
 def judge(lay, res, mo):
     rc, out, err = res
+    if rc == -9 and err == "TIMEOUT":
+        return "bkl did not terminate within 30 s on this layout (the model: %s)" % (mo[:2],)
     if isinstance(mo, list) and mo[:1] == ["err"] and mo[1] == "oracle":
         return None
     if mo[0] == "err":
@@ -232,7 +267,8 @@ def run(ctx):
     n = 400 if ctx.tier == "quick" else 8000
     rng = core.Rng(ctx.seed)
     fmts, _ = hist.formats_from_source()
-    lays = [fix_toml(gen_layout(rng.fork("case%d" % i))) for i in range(n)]
+    lays = link_corpus() + [fix_toml(gen_layout(rng.fork("case%d" % i))) for i in range(n)]
+    n = len(lays)
 
     def one(i):
         d = os.path.join(ctx.work, "lay%d" % i)
